@@ -619,6 +619,9 @@ class Text(JupyterMixin):
         """
 
         new_text = self.blank_copy()
+        # the separator's own style belongs to the separators (each gets it as a span below),
+        # not to the texts that are joined
+        new_text.style = ""
 
         def iter_text() -> Iterable["Text"]:
             if self.plain:
